@@ -338,9 +338,12 @@ Inductive yty :=
 | YRefRaw (t : yty)                 (* c1 := c.NextRef(); decoder.Unmarshal(c1, &x) inside a hand-written method:
                                        no pruned-branch shortcut, and no decode() (library check) on c itself *)
 | YNoLib (t : yty)
-| YPeek (off : nat) (t0 t1 : yty)   (* a layout selected by a flag bit that is read later: bit [off] of what is
-                                       unread decides between two continuations (BlockInfo: not_master,
-                                       after_merge, vert_seqno_incr, flags.0 select optional fields) *)
+| YPeek (off len : nat) (val : N) (t0 t1 : yty)
+                                    (* a layout selected by a field that is read later: bits [off, off+len) of
+                                       what is unread equal to [val] -> t1, otherwise t0 (BlockInfo: not_master,
+                                       after_merge, vert_seqno_incr, flags.0; McStateExtra: flags = 1;
+                                       McBlockExtra: key_block) *)
+| YRefRawOpt (t : yty)              (* c1, err := c.NextRef(); a missing reference is skipped, otherwise as YRefRaw *)
 | YOpenStruct (fs : list yty).      (* fields read from the current cell by a hand-written method that was
                                        called directly (no decode(): no library check on this cell) *)                 (* the content of a "^" / "maybe^" field: a library cell there is an error
                                        ("library cell as a ref is not implemented"), resolver or not *)
@@ -451,9 +454,14 @@ Definition ybody (D : yty -> ys -> ct -> yres ys) (t : yty) (s : ys) (st : ct) :
         if hash_ok (cell_of s) then D t' s st else yerr ETlb st
     | YRefRaw t' => doy (cr, st) <- ylift (ytake_ref s) st; into cr false t' st
     | YNoLib t' => D t' s st
-    | YPeek off t0 t1 =>
-        if short (S off) (yb s) then yerr ENotEnoughBits st
-        else if nth off (yb s) false then D t1 s st else D t0 s st
+    | YPeek off len val t0 t1 =>
+        if short (off + len) (yb s) then yerr ENotEnoughBits st
+        else if N.eqb (N_of_bits (firstn len (skipn off (yb s)))) val then D t1 s st else D t0 s st
+    | YRefRawOpt t' =>
+        match yr s with
+        | [] => yret s st
+        | _ => doy (cr, st) <- ylift (ytake_ref s) st; into cr false t' st
+        end
     | YOpenStruct fs =>
         (fix go (fs : list yty) (s : ys) (st : ct) : yres ys :=
            match fs with
@@ -474,7 +482,7 @@ Fixpoint ydec (fuel : nat) (t : yty) (s : ys) (st : ct) {struct fuel} : yres ys 
   match fuel with
   | O => yerr EFuel st
   | S f =>
-    if is_lib (yk s) && negb (match t with YRawCell | YAny | YOpenStruct _ | YRefRaw _ => true | _ => false end) then
+    if is_lib (yk s) && negb (match t with YRawCell | YAny | YOpenStruct _ | YRefRaw _ | YRefRawOpt _ => true | _ => false end) then
       if (match t with YNoLib _ => true | _ => false end) then yerr ETlb st else
       if negb (hash_ok (cell_of s)) then yerr ETlb st else
       match resolve (cell_of s) with
